@@ -331,15 +331,65 @@ Proof.
   destruct Hs as [r3 Hs]. exists r3. cbn [Nat.add]. erewrite run_ops_step; [| subst ps pv; lia | exact Hs]. f_equal. subst ps pv. lia.
 Qed.
 
+(* ---- set the <property> of menuItem it of menu mn = v ---- *)
+Lemma menu_small pid : (pid < List.length MENUITEM_PROPERTIES)%nat -> (pid < 512)%nat.
+Proof. intros H. assert (L : (List.length MENUITEM_PROPERTIES <= 64)%nat) by (vm_compute; lia). lia. Qed.
+
+Lemma exec_set_menu en props pid it mn v : wf_s en (SSetMenu pid it mn v) -> exec_s_spec en props (SSetMenu pid it mn v).
+Proof.
+  intros (Hpid & Hi & Hm & Hv) d off len a fuel r m [Hag Hpr] Hst Hc Hoff Hlen.
+  pose proof (menu_small pid Hpid) as Hsm.
+  cbn [compile_s ninstr_s] in *. rewrite !zlen_app in *. change (zlen [b 93; b 3]) with 2 in *.
+  apply code_at_app in Hc. destruct Hc as [Hcit Hc]. apply code_at_app in Hc. destruct Hc as [Hcm Hc].
+  apply code_at_app in Hc. destruct Hc as [Hcv Hc]. apply code_at_app in Hc. destruct Hc as [Hci Hcs].
+  pose proof (zlen_nonneg (compile_e it)). pose proof (zlen_nonneg (compile_e mn)). pose proof (zlen_nonneg (compile_e v)).
+  pose proof (zlen_nonneg (compile_int (Z.of_nat pid))).
+  replace (ninstr it + (ninstr mn + (ninstr v + 2)) + fuel)%nat with (ninstr it + (ninstr mn + (ninstr v + (1 + (1 + fuel)))))%nat by lia.
+  destruct (exec_e en it Hi d off len a (ninstr mn + (ninstr v + (1 + (1 + fuel))))%nat r m Hag Hcit ltac:(lia) ltac:(lia)) as [r1 E1]. rewrite E1.
+  set (m1 := after_e en a it m). set (pm := a + zlen (compile_e it)) in *.
+  pose proof (agrees_after_e en a it m Hag) as Hag1. fold m1 in Hag1.
+  destruct (exec_e en mn Hm d off len pm (ninstr v + (1 + (1 + fuel)))%nat r1 m1 Hag1 Hcm ltac:(subst pm; lia) ltac:(subst pm; lia)) as [r2 E2]. rewrite E2.
+  set (m2 := after_e en pm mn m1). set (pv := pm + zlen (compile_e mn)) in *.
+  pose proof (agrees_after_e en pm mn m1 Hag1) as Hag2. fold m2 in Hag2.
+  destruct (exec_e en v Hv d off len pv (1 + (1 + fuel))%nat r2 m2 Hag2 Hcv ltac:(subst pv pm; lia) ltac:(subst pv pm; lia)) as [r3 E3]. rewrite E3.
+  set (m3 := after_e en pv v m2). set (pi := pv + zlen (compile_e v)) in *.
+  pose proof (agrees_after_e en pv v m2 Hag2) as Hag3. fold m3 in Hag3.
+  assert (Hwi : wf_e en (EInt (Z.of_nat pid))) by (cbn [wf_e]; lia).
+  destruct (exec_int en (Z.of_nat pid) Hwi d off len pi (1 + fuel)%nat r3 m3 Hag3 Hci ltac:(subst pi pv pm; lia) ltac:(subst pi pv pm; cbn [compile_e]; lia)) as [r4 E4].
+  cbn [ninstr compile_e] in E4. rewrite E4.
+  set (m4 := after_e en pi (EInt (Z.of_nat pid)) m3). set (ps := pi + zlen (compile_int (Z.of_nat pid))) in *.
+  assert (Hs : step d ps r4 m4 = Ok (ps + 2, r4, after_s en props a (SSetMenu pid it mn v) m)).
+  { eapply step_bi with (proc0 := "AssignSoundPropertiesOpcode") (attr0 := "") (proc := "AssignMenuitemPropertiesOpcode") (attr := "") (oc := OAssignMenuitemProps);
+      [exact Hcs | reflexivity | reflexivity | reflexivity |].
+    cbn [process]. unfold pop. subst m4. rewrite after_e_stack. cbn [bind reify_e]. unfold int_name. cbn [name_of].
+    rewrite int_of_str_small by lia. cbn [of_option bind]. unfold with_stack at 1. cbn [m_stack].
+    subst m3. rewrite after_e_stack. cbn [bind]. unfold with_stack at 1. cbn [m_stack].
+    subst m2. rewrite after_e_stack. cbn [bind]. unfold with_stack at 1. cbn [m_stack].
+    subst m1. rewrite after_e_stack. cbn [bind]. rewrite nth_name_ok by exact Hpid. cbn [bind]. f_equal.
+    unfold after_s, stmt_assign, add_stmt, with_stack. cbn [reify_s globals_s].
+    apply mstate_eq; cbn [m_stack m_ctx m_fn f_globals f_name f_pos f_params f_locals f_stmts f_is_method set_stmts].
+    - rewrite Hst. reflexivity.
+    - destruct m as [? [? ? ? ? ? ? ?] ?]; reflexivity.
+    - rewrite !after_e_globals. cbn [globals_e add_globals fold_left]. rewrite !add_globals_app. reflexivity.
+    - destruct m as [? [? ? ? ? ? ? ?] ?]; reflexivity.
+    - destruct m as [? [? ? ? ? ? ? ?] ?]; reflexivity.
+    - destruct m as [? [? ? ? ? ? ? ?] ?]; reflexivity.
+    - destruct m as [? [? ? ? ? ? ? ?] ?]; reflexivity.
+    - subst ps pi pv pm. destruct m as [? [? ? ? ? ? ? ?] ?]; reflexivity.
+    - destruct m as [? [? ? ? ? ? ? ?] ?]; reflexivity. }
+  exists r4. cbn [Nat.add]. erewrite run_ops_step; [| subst ps pi pv pm; lia | exact Hs]. f_equal. subst ps pi pv pm. lia.
+Qed.
+
 Theorem exec_s en props s : wf_s en s -> exec_s_spec en props s.
 Proof.
-  destruct s as [t e|f args|f args|f pid o v|k i v|n o v]; intros Hwf.
+  destruct s as [t e|f args|f args|f pid o v|k i v|n o v|pid it mn v]; intros Hwf.
   - apply exec_set; exact Hwf.
   - apply (exec_call_stmt en props false f args); exact Hwf.
   - apply (exec_call_stmt en props true f args); exact Hwf.
   - apply exec_set_obj; exact Hwf.
   - apply exec_set_the; exact Hwf.
   - apply exec_set_acc; exact Hwf.
+  - apply exec_set_menu; exact Hwf.
 Qed.
 
 (* ---- a sequence of statements ---- *)
